@@ -315,11 +315,15 @@ class NestedDictRAMDataStore(datastore.DataStore):
 
     with self._lock:
       try:
-        self._owners[resource.owner_id].studies[resource.study_id].clients[
-            resource.client_id
-        ].suggestion_operations[resource.operation_id] = copy.deepcopy(
-            operation
+        suggestion_operations = (
+            self._owners[resource.owner_id]
+            .studies[resource.study_id]
+            .clients[resource.client_id]
+            .suggestion_operations
         )
+        if resource.operation_id not in suggestion_operations:
+          raise KeyError(resource.operation_id)
+        suggestion_operations[resource.operation_id] = copy.deepcopy(operation)
       except KeyError as err:
         raise custom_errors.NotFoundError(
             'Could not update SuggestionOperation with name:', resource.name
@@ -420,11 +424,14 @@ class NestedDictRAMDataStore(datastore.DataStore):
     )
     with self._lock:
       try:
-        self._owners[resource.owner_id].studies[
-            resource.study_id
-        ].early_stopping_operations[resource.operation_id] = copy.deepcopy(
-            operation
+        early_stopping_ops = (
+            self._owners[resource.owner_id]
+            .studies[resource.study_id]
+            .early_stopping_operations
         )
+        if resource.operation_id not in early_stopping_ops:
+          raise KeyError(resource.operation_id)
+        early_stopping_ops[resource.operation_id] = copy.deepcopy(operation)
       except KeyError as err:
         raise custom_errors.NotFoundError(
             'Could not update EarlyStoppingOperation with name:', resource.name
